@@ -10,6 +10,7 @@ pub mod c05;
 pub mod c06;
 pub mod c07;
 pub mod c08;
+pub mod c08e;
 pub mod c09;
 pub mod c10;
 pub mod c11;
@@ -19,6 +20,7 @@ pub mod c14;
 pub mod c15;
 pub mod c16;
 pub mod c17;
+pub mod deep;
 pub mod hist;
 
 /// E5 for the properties whose op alphabets live in hist.rs: verdict ops against fresh-process baselines,
@@ -56,6 +58,7 @@ pub fn run(id: &str, tier: Tier) -> i32 {
         Some(r) => r,
         None => return 2,
     };
+    guarded(&run, || deep::run(&run, id));
     explore_history(&run, id);
     run.finish()
 }
@@ -149,6 +152,10 @@ pub fn probe(_id: &str, tag: &str, what: &str) {
         let _ = c12::case_fold(&f, &x);
         return;
     }
+    if tag == "deep" {
+        deep::probe(what);
+        return;
+    }
     if tag.is_empty() {
         return;
     }
@@ -182,6 +189,13 @@ pub fn replay_case(id: &str, op: &str, case: &serde_json::Value) -> Result<(), S
         return crate::history::replay(id, &history_ops(id), case);
     }
     match (id, op) {
+        (_, "deep_tower") => deep::replay_case(id, case),
+        (_, "edited_clone") => c08e::replay_case(case),
+        (_, "push_once") => c17::replay_case(case),
+        (_, "classification_items") => c15::replay_case(case),
+        (_, "derived_constructor") => c10::replay_case(case),
+        (_, "route") => c06::replay_route(case),
+        (_, "macro") | (_, "typst_item") => Err("this case is part of a fixed list that the check evaluates in one go (macro invocations compiled into the harness / the item sweep); re-run the check to re-evaluate".into()),
         (_, "options_wf") => c12::replay_case(case),
         (_, "enum_roundtrip") => c01::replay_case(case),
         (_, "lexical_roundtrip") => c02::replay_case(case),
@@ -193,7 +207,7 @@ pub fn replay_case(id: &str, op: &str, case: &serde_json::Value) -> Result<(), S
         (_, "eq_pair") => c06::replay_case(case),
         (_, "hash_pair") => c07::replay_case(case),
         (_, "typst_collision") | (_, "typst_render") => c16::replay_case(case),
-        (_, "parse_sequence") | (_, "lexical_sequence") => c08::replay_case(case),
+        (_, "parse_sequence") | (_, "lexical_sequence") | (_, "volume") | (_, "soak") => c08::replay_case(case),
         (_, "mutator_history") | (_, "set_name_once") => c17::replay_case(case),
         (_, "spacing") | (_, "spacing_batch") => c09::replay_case(case),
         (_, "truth_floats") | (_, "budget_floats") | (_, "evident_number") => c13::replay_case(case),
